@@ -20,6 +20,21 @@ CLAIMS = {
  "C18": dict(text="Proof: Parse never panics for any string; every field of the result is the corresponding option value (or its documented default) extracted by the flag package from the fields after the first, with int32 conversion, the weight normalisation and the tcp/udp/ssl transport mapping; Key is the canonical string of (Proto, Host, Port, Timeout); Tars2endpoint/Endpoint2tars copy host, port, timeout, transport kind, grid, qos, weight, weight type, auth type and set id; a spec lemma shows the cache keys of a direct address and of its registry round trip agree for tcp/udp/ssl.",
              note="Trusted: contracts of strings.Fields and flag.FlagSet (ghost registry of registered variables; option extraction itself is the uninterpreted flagInt/flagStr), Endpoint.String defines the canonical string (fmt.Sprintf uninterpreted). The call site in newEndpointManager is not under contract.",
              ref="DESIGN 7/C18"),
+ "C01": dict(text="Proof of the server-side sequential core of a call: Protocol.Invoke maps the dispatcher's error to the response (IRet = the *tars.Error code or 1, SResultDesc = the error message) regardless of registered pass-through post filters, enters the implementation at most once, and echoes request id / version / packet type.",
+             note="Scope: server Invoke only. NOT covered (listed in evidence): the client side (TarsInvoke/doInvoke inverse error map), generated proxies and dispatchers for arbitrary IDL (programs quantifier; a generator change that only affects IDL with nested containers is not detected), TCP transport, concurrent callers (per-request context isolation), one-way delivery over the wire. Trusted: dispatch.Dispatch interface contract, pass-through filter contract (returns nil, changes nothing), rsp2Byte, CheckPanic, util/current accessors.",
+             ref="DESIGN 7/C01"),
+ "C10": dict(text="Proof for Protocol.Invoke: the response carries the request's id, protocol version and packet type; a tars_ping request and a request whose own timeout already elapsed in the queue never reach the implementation (the latter is answered on the ctx.Done branch); an implementation error becomes IRet = code / 1 with the error's message; the implementation is entered at most once.",
+             note="Scope: Invoke. NOT covered: exactly-one-response per request over the transport (handler goroutines, worker pool, UDP), TarsServer.invoke handle-timeout race, rsp2Byte/req2Byte encoding (trusted), TUP/JSON versions. Trusted: context.WithTimeout/Done contracts (a non-positive timeout yields a done context; a non-blocking select takes a ready case), time stamps within sane ranges, dispatch/filter contracts as in C01.",
+             ref="DESIGN 7/C10"),
+ "C13": dict(text="Proof for all four selectors: Select never indexes out of range and fails exactly when the member list (ring) is empty; round-robin returns endpoints[(cursor+1) mod N] and advances the cursor by one (strict rotation); Refresh/Add/Remove re-establish the representation invariant (weighted-cycle entries are valid indexes, owned arrays are freshly allocated and never the caller's); BuildStaticWeightList terminates and cannot panic for any weights (zero, negative, huge); the consistent-hash virtual-node count is max(1, w/4) for every positive weight.",
+             note="UNPROVED clauses (assumed by callers, listed in evidence): BuildStaticWeightList's entries are indexes into its argument and its length is at most 101*N+1 (the quantified invariants of the smooth weighted round-robin loops are not discharged by the solvers). NOT covered: the weighted count formula, that the member list equals the supplied set (subset/distinct-host part), concurrent Select vs update (locks assumed to give atomicity), ring sortedness. Trusted: sort.Slice permutes, sort.Search result in [0,n], rand.Intn in [0,n), atomic.AddUint64.",
+             ref="DESIGN 7/C13"),
+ "C14": dict(text="Proof: mod-hash Select returns endpoints[h mod N], or endpoints[cycle[h mod len(cycle)]] when static weights are installed, with h the message's hash code, and changes no state (so the same code maps to the same endpoint while the set is unchanged); the consistent-hash number of ring rounds per endpoint is exactly max(1, w/4) for positive effective weight w and w otherwise.",
+             note="NOT covered: consistent-hash lookup = first ring point >= key (sort.Search with a closure predicate is only specified to return an index in range), history independence and minimal disruption of the ring (needs collision-freedom of md5 points; see DESIGN F16), routing of a call with a hash code in its context through the endpoint manager.",
+             ref="DESIGN 7/C14"),
+ "C15": dict(text="Proof of the per-step relations of an endpoint's health record: checkActive never blocks an endpoint with fewer than two failures (it requires failCount >= overN given lastFailCount <= failCount), blocks after fainN consecutive failures lasting failInterval seconds, never reinstates by itself, hands out a probe only when blocked and at least tryTimeInterval seconds after the last one (and records the probe time); failAdd/successAdd/reset are exact (reset zeroes all counters and reinstates).",
+             note="Scope: AdapterProxy step functions. NOT covered: checkStatus/SelectAdapterProxy/addAliveEp (removal from rotation, probe queue, random fallback when every endpoint is blocked), the composition of steps over a timed history, goroutine timing. The ratio rule uses an uninterpreted float comparison. Package-level thresholds (fainN=5, failInterval=5, tryTimeInterval=30, overN=2) are treated as constants because nothing in the module reassigns them. Atomics are modelled sequentially.",
+             ref="DESIGN 7/C15"),
 }
 NA = {
  "C11": "schedule property: needs an interleaving of sender/receiver goroutines over a shared connection; per-function contracts cannot quantify over schedules and govc has no concurrency logic",
